@@ -16,6 +16,8 @@ EXTENDS Props, Build, TLC
 CONSTANTS
   N, Types,
   Shape,         \* "all": every labelled DAG on 0..N nodes | "complete": only the complete DAG on N nodes
+  ChildOrder,    \* "any": children of a node are visited in any order (design runs)
+                 \* "petgraph": most recently added edge first, as petgraph's adjacency lists yield them (trace runs)
   PushRule,      \* "on_increase" (code after the fix) | "always" (as found)
   \* deliberate deviations of the augmenter
   ConflictMode,  \* "full" | "no_ww" (write/write clause dropped) | "rr" (read/read counts)
@@ -50,6 +52,13 @@ SeqOf(S) ==
 
 Perms(S) == { p \in [1..Cardinality(S) -> S] : \A a, b \in DOMAIN p : a # b => p[a] # p[b] }
 
+(* children of v in the order graph.children(v) yields them: reverse order of insertion of the edges *)
+KidSeq(v) ==
+  LET F[k \in 0..Len(ue)] == IF k = 0 THEN <<>>
+                             ELSE LET p == F[k-1] IN IF ue[k][1] = v THEN <<ue[k][2]>> \o p ELSE p
+  IN F[Len(ue)]
+KidOrders(v) == IF ChildOrder = "any" THEN Perms(Succs(PairsOfSeq(ue), v)) ELSE {KidSeq(v)}
+
 Roots(k, S) == { f \in 1..k : Preds(S, f) = {} }
 
 Init ==
@@ -72,7 +81,7 @@ Init ==
 RankPop ==
   /\ phase = "rank" /\ queue # <<>>
   /\ LET v == Head(queue)  kids == Succs(UE, v) IN
-     \E p \in Perms(kids) :                   \* children are visited in edge-list order: any order
+     \E p \in KidOrders(v) :                  \* children are visited in adjacency-list order
        LET new == [c \in 1..n |-> IF c \in kids
                                   THEN (IF RankMin /\ rank[c] > 0 THEN Min(rank[c], rank[v] + 1)
                                         ELSE Max(rank[c], rank[v] + 1))
